@@ -18,7 +18,7 @@ try:
     if s.count(old) != 1:
         print("MUT: pattern occurs", s.count(old), "times"); sys.exit(2)
     open(p, "w").write(s.replace(old, new))
-    env = dict(os.environ, GOFLAGS="-mod=mod", GOPROXY="off", VERIF_REPO=REPO)
+    env = dict(os.environ, GOFLAGS="-mod=mod", GOPROXY="off", VERIF_REPO=REPO, VERIF_EVIDENCE_DIR="/tmp/verif-mut-evidence", VERIF_REPLAY_DIR="/tmp/verif-mut-replay")
     b = subprocess.run("go build ./... && go test -vet=off -count=1 ./... 2>&1 | grep -v '^ok\\|no test files' | head -5", shell=True, cwd=REPO, env=env, capture_output=True, text=True)
     print("MUT build/tests:", "clean" if not (b.stdout + b.stderr).strip() else (b.stdout + b.stderr))
     for i in ids:
